@@ -299,6 +299,88 @@ def sweeps(tier, rng):
                     cur = a[-1]
             if bad is None and len(counts) > 1: bad = "masters got different point structures: %r" % (counts,)
             yield (("glyphs_to_quadratic", i, tols, empties), bad)
-    return [Sweep("curves_to_quadratic", run_curves), Sweep("qu2cu", run_qu2cu), Sweep("glyphs_to_quadratic", run_glyphs)]
+    def run_pens():
+        """the pens that apply the conversion while a contour is drawn: every cubic segment of the input is answered by
+        either the same cubic (only when quadratics are not forced) or a quadratic spline within max_err of THAT cubic"""
+        from fontTools.pens.cu2quPen import Cu2QuPen, Cu2QuPointPen
+        from fontTools.pens.recordingPen import RecordingPen, RecordingPointPen
+        from fontTools.pens.pointPen import SegmentToPointPen, PointToSegmentPen
+        for i in range(n):
+            tol = rng.choice([0.5, 1.0, 2.0, 5.0, 20.0, 50.0]); aq = rng.chance(40); which = rng.below(2)
+            calls = []; segs = []          # segs: (kind, start point, args)
+            for _c in range(rng.randint(1, 3)):
+                cur = (float(rng.randint(-300, 300)), float(rng.randint(-300, 300))); calls.append(("moveTo", (cur,)))
+                for _s in range(rng.randint(1, 6)):
+                    k = rng.below(10)
+                    if k < 6:
+                        fam = rng.below(10)
+                        if fam < 3: c = gen_cubic(rng)
+                        elif fam < 6:
+                            # a quadratic written as a cubic (what a TrueType-sourced outline looks like), slightly perturbed
+                            q0, q1, q2 = [(rng.randint(-200, 200), rng.randint(-200, 200)) for _ in range(3)]; e_ = rng.choice([0, 0, 1, 3])
+                            c = [q0, (q0[0] + 2 * (q1[0] - q0[0]) / 3 + rng.randint(-e_, e_), q0[1] + 2 * (q1[1] - q0[1]) / 3 + rng.randint(-e_, e_)),
+                                 (q2[0] + 2 * (q1[0] - q2[0]) / 3 + rng.randint(-e_, e_), q2[1] + 2 * (q1[1] - q2[1]) / 3), q2]
+                        elif fam < 8:
+                            # a loop that comes back (almost) to where it started
+                            x0, y0 = rng.randint(-200, 200), rng.randint(-200, 200)
+                            c = [(x0, y0), (x0 + rng.randint(100, 400), y0 + rng.randint(100, 400)), (x0 - rng.randint(100, 400), y0 + rng.randint(100, 400)), (x0 + rng.randint(-5, 5), y0 + rng.randint(-5, 5))]
+                        else: c = [(rng.randint(-30, 30), rng.randint(-30, 30)) for _ in range(4)]
+                        d = (cur[0] - c[0][0], cur[1] - c[0][1])
+                        a = tuple((float(p[0] + d[0]), float(p[1] + d[1])) for p in c[1:])
+                        calls.append(("curveTo", a)); segs.append(("curveTo", cur, a)); cur = a[-1]
+                    elif k < 8:
+                        a = ((float(rng.randint(-300, 300)), float(rng.randint(-300, 300))),); calls.append(("lineTo", a)); segs.append(("lineTo", cur, a)); cur = a[-1]
+                    else:
+                        a = tuple((float(rng.randint(-300, 300)), float(rng.randint(-300, 300))) for _ in range(rng.randint(2, 3)))
+                        calls.append(("qCurveTo", a)); segs.append(("qCurveTo", cur, a)); cur = a[-1]
+                calls.append(("closePath", ()) if rng.chance(60) else ("endPath", ()))
+            bad = None
+            try:
+                rec = RecordingPen()
+                if which == 0:
+                    pen = Cu2QuPen(rec, tol, all_quadratic=aq)
+                    for op, a in calls: getattr(pen, op)(*a)
+                else:
+                    pen = Cu2QuPointPen(PointToSegmentPen(rec, outputImpliedClosingLine=True), tol, all_quadratic=aq)
+                    sp = SegmentToPointPen(pen)
+                    for op, a in calls: getattr(sp, op)(*a)
+            except ApproxNotFoundError:
+                yield (("pen", which, tol, aq, calls), None); continue
+            except Exception as e:
+                yield (("pen", which, tol, aq, calls), "pen raised %r" % (e,)); continue
+            out = [(op, a) for op, a in rec.value if op in ("curveTo", "lineTo", "qCurveTo")]
+            if which == 1:
+                # the point pen may rotate a closed contour / add or drop the closing line: compare curve segments as a multiset keyed by end point
+                outc = [(op, a) for op, a in out if op != "lineTo"]; inc = [sg for sg in segs if sg[0] != "lineTo"]
+                starts = {}
+                cur = None
+                for op, a in rec.value:
+                    if op in ("curveTo", "qCurveTo"): starts.setdefault((op, tuple(a)), cur)
+                    if op in ("moveTo", "lineTo", "curveTo", "qCurveTo") and a and a[-1] is not None: cur = a[-1]
+                if len(outc) != len(inc): bad = "the number of curve segments changed: %d -> %d" % (len(inc), len(outc))
+                else:
+                    pool = list(outc)
+                    for kind, st, a in inc:
+                        m = [o for o in pool if tuple(o[1][-1]) == tuple(a[-1]) and (o[0] == kind and tuple(o[1]) == tuple(a) or kind == "curveTo" and o[0] == "qCurveTo" and spline_error([st] + list(a), [st] + list(o[1])) <= tol * (1 + 1e-6) + 1e-9)]
+                        if kind == "curveTo" and aq: m = [o for o in m if o[0] == "qCurveTo"]
+                        if not m: bad = "no output segment answers input %s from %r: %r (max_err %g, all_quadratic %r); output %r" % (kind, st, a, tol, aq, outc); break
+                        pool.remove(m[0])
+            else:
+                if len(out) != len(segs): bad = "the number of segments changed: %d -> %d" % (len(segs), len(out))
+                for (kind, st, a), (op, b) in zip(segs, out):
+                    if bad: break
+                    if kind != "curveTo":
+                        if (op, tuple(b)) != (kind, tuple(a)): bad = "%s %r became %s %r" % (kind, a, op, b)
+                    elif op == "curveTo":
+                        if aq: bad = "a cubic was kept although all_quadratic=True"
+                        elif tuple(b) != tuple(a): bad = "kept cubic changed: %r -> %r" % (a, b)
+                    elif op == "qCurveTo":
+                        if tuple(b[-1]) != tuple(a[-1]): bad = "end point moved: %r -> %r" % (a[-1], b[-1])
+                        else:
+                            e = spline_error([st] + list(a), [st] + list(b))
+                            if e > tol * (1 + 1e-6) + 1e-9: bad = "the quadratic for cubic %r (from %r) strays %.4g > max_err %g: %r" % (a, st, e, tol, b)
+                    else: bad = "cubic became %s" % op
+            yield (("pen", which, tol, aq, calls), bad)
+    return [Sweep("curves_to_quadratic", run_curves), Sweep("qu2cu", run_qu2cu), Sweep("glyphs_to_quadratic", run_glyphs), Sweep("cu2qu-pens", run_pens)]
 
 def witness(fid): return None
